@@ -207,9 +207,14 @@ def recover(state):
     try:
         skeleton(d)
         for name, data in state["files"].items():
+            if state.get("same_pid") and re.match(r"^%s\.\d+\.tmp$" % re.escape(CACHE), name):
+                # the interrupted writer had the process id the recovering import has now (pid 1 of a restarted container)
+                name = "%s.%d.tmp" % (CACHE, os.getpid())
             with open(os.path.join(d, "data", name), "wb") as f:
                 f.write(data)
         before = set(os.listdir(os.path.join(d, "data")))
+        if state.get("same_pid"):
+            before = {n for n in before if not n.endswith(".tmp")}      # a temp file under our own pid is ours to reuse or remove
         cache = os.path.join(d, "data", CACHE)
         try:
             m1 = import_alias(d)
@@ -244,8 +249,9 @@ def recover(state):
 def _work(task):
     try:
         label, files, meta = task
+        files = {k: v for k, v in files.items() if not k.startswith("\0")}
         t0 = time.time()
-        v = recover({"files": files})
+        v = recover({"files": files, "same_pid": meta.get("same_pid", False)})
         return label, meta, v, time.time() - t0
     except Exception:  # noqa: BLE001
         import traceback
@@ -331,6 +337,11 @@ def run(tier, seed, jobs, deadline, report):
             set(range(0, min(size, 65))) | set(range(max(0, size - 64), size + 1)) | set(range(seed % 257, size, 257)))
         for c in pts:
             add("history:op%d-torn-at-%d" % (i, c), apply_ops(ops, contents, i, c), {"family": "write-history-torn", "op": i, "cut": c, "abs": start + c})
+    # B': the same crash states, the leftover temp file carrying the pid of the recovering process
+    for i in range(len(ops) + 1):
+        st_ = apply_ops(ops, contents, i)
+        if any(n != CACHE for n in st_):
+            add("history-same-pid:after-%d-ops" % i, dict(st_, **{"\0same-pid": b""}), {"family": "write-history-same-pid", "ops_done": i, "same_pid": True})
     # C: unreadable content
     for b in sorted(set(wb + bounds + [1, 2, N // 2])):
         if 0 < b < N:
@@ -806,7 +817,7 @@ def replay(rec):
             files = {CACHE: complete[:meta["cut"]]}
         elif fam == "truncated-shipped-cache":
             files = {CACHE: open(os.path.join(REPO, "dateparser", "data", CACHE), "rb").read()[:meta["cut"]]}
-        elif fam == "write-history":
+        elif fam in ("write-history", "write-history-same-pid"):
             files = apply_ops(ops, contents, meta["ops_done"])
         elif fam == "write-history-torn":
             files = apply_ops(ops, contents, meta["op"], meta["cut"])
@@ -817,7 +828,7 @@ def replay(rec):
                      "pickle-empty-tuple": {CACHE: pickle.dumps((), protocol=5)}, "pickle-none": {CACHE: pickle.dumps(None, protocol=5)},
                      "pickle-3-tuple": {CACHE: pickle.dumps((1, 2, 3), protocol=5)}, "pickle-str": {CACHE: pickle.dumps("x" * 100, protocol=5)},
                      "complete": {CACHE: complete}}.get(label, {})
-        v = recover({"files": files})
+        v = recover({"files": files, "same_pid": meta.get("same_pid", False)})
     if v is None:
         return None
     return {"cls": {"family": meta["family"], "stage": v["stage"], "problem": v["problem"]}, "expected": "recovery", "observed": v}
